@@ -225,6 +225,20 @@ func structs() {
 		}
 		emit(fmt.Sprint("kept", i))
 	}
+	// a local function literal that is only called
+	total := 0
+	addTo := func(k int) {
+		if k%2 == 0 {
+			total += k
+			return
+		}
+		total -= k
+	}
+	for _, k := range []int{1, 2, 3, 4} {
+		addTo(k)
+	}
+	addTo(10)
+	emit(fmt.Sprint("total", total))
 	// loop variables must not be aliased into closures of expanded helpers
 	var fs []func() int
 	xs := []int{10, 20, 30}
